@@ -306,6 +306,8 @@ class TlSchemas:
                             else:
                                 deser, j = self.deserialize(data[i:], True)
 
+                            if j == 0:
+                                raise TlError(f'vector element of type {subtype} has zero width: cannot hold {length} of them')
                             result[field].append(deser)
                             i += j
                 else:
